@@ -131,9 +131,23 @@ _MUTABLE = (ast.List, ast.Dict, ast.Set, ast.ListComp, ast.DictComp,
             ast.SetComp)
 
 
+def _is_object(v: ast.expr) -> bool:
+    """Does `v` create an object whose identity matters (it is mutated
+    through its name later)?"""
+    if isinstance(v, _MUTABLE):
+        return True
+    if isinstance(v, ast.Call):
+        f = v.func
+        nm = f.attr if isinstance(f, ast.Attribute) else (
+            f.id if isinstance(f, ast.Name) else "")
+        return nm in ("zeros", "empty", "ones", "full", "array", "copy",
+                      "list", "dict", "set", "zeros_like", "empty_like")
+    return False
+
+
 def _bind(p: Path, t: ast.expr, v: ast.expr, s: ast.stmt) -> None:
     if isinstance(t, ast.Name):
-        if isinstance(v, _MUTABLE):
+        if _is_object(v):
             # a mutable object keeps its name (identity matters: appends)
             p.objs[t.id] = v
             p.env.pop(t.id, None)
